@@ -279,8 +279,11 @@ class Computed:
 
                 try:
                     self._value = self.func(*self.args, **self.kwargs)
-                except Exception as e:
-                    raise e
+                except BaseException:
+                    # nothing was computed: the next read has to run the function again
+                    # instead of re-validating and serving the value cached before
+                    self._first = True
+                    raise
                 finally:
                     CURRENT_COMPUTED = old
                     EVALUATION_DEPTH -= 1
